@@ -11,9 +11,8 @@
                                            truth belongs to the frame, identities distinct, ground-truth
                                            __eq__ keys (time, label, position, orientation) pairwise distinct
      h_points  obj_ok crit true g          ground truth has a point count if a point bound is configured
-     h_gt_conf the confidence criterion does not decide whether a ground truth is critical
-                                           (holds when ground-truth scores exceed the thresholds:
-                                            C03_gt_conf_sufficient; what happens otherwise: C03_gt_confidence_gap) *)
+   The confidence list plays no part for ground truth (C10_confidence_estimates_only; repaired in /repo by
+   54ea74c), so no hypothesis about ground-truth scores is needed: C03_nonvacuous_gt_confidence. *)
 From Coq Require Import List Bool ZArith String Permutation.
 From PE Require Import Base.QUtil Model.Filter Model.PassFail Proofs.FilterProofs Proofs.PassFailProofs.
 Import ListNotations.
@@ -126,15 +125,6 @@ Proof.
 Qed.
 Print Assumptions C03_get_status_cases.
 
-(* when the confidence hypothesis holds *)
-Theorem C03_gt_conf_sufficient :
-  forall crit g,
-    (forall l, c_conf crit = Some l -> forall thr, bound_for crit g l = Some thr -> thr < o_conf g) ->
-    (forall l, c_conf crit = Some l -> targeted crit g = true -> lbl_is_fp (o_label g) = false -> bound_for crit g l <> None) ->
-    kept (gt_side crit) true true g = kept crit true true g.
-Proof. exact gt_conf_sufficient. Qed.
-Print Assumptions C03_gt_conf_sufficient.
-
 Theorem C03_all_clauses : C03_statement.
 Proof.
   intros crit pf rs gts F Hh H. pose proof (h_pf _ _ _ _ Hh) as Hpf.
@@ -181,7 +171,6 @@ Proof.
     + vm_compute. repeat constructor; simpl; intuition discriminate.
     + vm_compute. repeat constructor; simpl; intuition discriminate.
   - intros g Hg _ _. simpl in Hg. repeat (destruct Hg as [<-|Hg]; [discriminate|]). destruct Hg.
-  - intros g Hg. simpl in Hg. repeat (destruct Hg as [<-|Hg]; [vm_compute; reflexivity|]). destruct Hg.
 Qed.
 
 Example C03_nonvacuous_run :
@@ -220,24 +209,26 @@ Proof.
   vm_compute. repeat split. right; left; reflexivity.
 Qed.
 
-(* a confidence threshold that the ground truth's own score does not exceed: filter_objects(is_gt=True)
-   applies the confidence criterion to ground truth as well, so the ground truth of a surviving result is
-   removed from the critical list and is nevertheless reported as FN (0 critical GT, 1 FN) *)
-Example C03_gt_confidence_gap :
-  exists crit pf rs gts F,
-    wf_cfg crit /\ pf_ok pf /\ wf_frame rs gts /\
-    evaluate_frame crit pf rs gts = Ok F /\ f_gts F = [] /\ List.length (f_fn F) = 1%nat.
+(* the former confidence gap (threshold 1 for the ground truth's label = its own score): the ground truth is
+   critical, and it is the one FN -- 1 critical GT, TP + FN = 0 + 1 *)
+Example C03_nonvacuous_gt_confidence :
+  let crit := mkCfg (Some [2; 7]%nat) None (Some [10; 10]) (Some [10; 10]) None None None (Some [1 # 2; 1]) None in
+  let pf := mkPF (Some [2; 7]%nat) (Some [1; 1]) in
+  let rs := [mkRes (xo 0 2 (9 # 10) 1 0 "") (Some (xo 0 7 1 1 0 "a")) false (Some 0)] in
+  let gts := [xo 0 7 1 1 0 "a"] in
+  frame_hyps crit pf rs gts /\
+  match evaluate_frame crit pf rs gts with
+  | Ok F => ids (f_gts F) = [0]%nat /\ f_tp F = [] /\ ids (f_fn F) = [0]%nat /\ map res_pair (f_fp F) = [(0, Some 0)]%nat
+  | _ => False
+  end.
 Proof.
-  exists (mkCfg (Some [2; 7]%nat) None (Some [10; 10]) (Some [10; 10]) None None None (Some [1 # 2; 1]) None),
-         (mkPF (Some [2; 7]%nat) (Some [1; 1])),
-         [mkRes (xo 0 2 (9 # 10) 1 0 "") (Some (xo 0 7 1 1 0 "a")) false (Some 0)],
-         [xo 0 7 1 1 0 "a"].
-  eexists.
-  split. { unfold wf_cfg, len_ok; simpl. repeat split; intros l H; try discriminate; inversion H; subst;
-           (exists [2; 7]%nat; repeat split; [discriminate]). }
-  split. { intros ts l H1 H2. inversion H1; inversion H2; subst. reflexivity. }
-  split. { constructor; try (vm_compute; repeat constructor; simpl; tauto).
-           intros r g [<-|[]] Hg. inversion Hg; subst. left; reflexivity. }
-  split. { vm_compute. reflexivity. }
-  vm_compute. split; reflexivity.
+  cbv zeta. split.
+  - constructor.
+    + unfold wf_cfg, len_ok; simpl. repeat split; intros l H; try discriminate; inversion H; subst;
+        (exists [2; 7]%nat; repeat split; [discriminate]).
+    + intros ts l H1 H2. inversion H1; inversion H2; subst. reflexivity.
+    + constructor; try (vm_compute; repeat constructor; simpl; tauto).
+      intros r g [<-|[]] Hg. inversion Hg; subst. left; reflexivity.
+    + intros g _ _ H. exfalso. apply H. reflexivity.
+  - vm_compute. repeat split.
 Qed.
